@@ -361,6 +361,18 @@ def gen_system(rng, max_entries=4, kinds=("lin", "lin", "off", "nonlin", "time",
             else:
                 terms.append({"c": str(c), "pows": pw + [[["t"], -1], [["v", rng.randrange(n)], 1]]})
         e["rhs"] = merge_terms(terms)
+        if const_funs:
+            # a tiny coefficient that only ADDS to a much larger coefficient of the same state-variable monomial is below the
+            # resolution of double precision (SymPy's simplify drops it, as evaluating the sum in doubles would): keep tiny
+            # coefficients on monomials of their own only
+            def vsig(t_):
+                return tuple(sorted((tuple(a), ex) for a, ex in t_["pows"] if a[0] == "v"))
+            for t_ in e["rhs"]:
+                if Fraction(t_["c"]) != 0 and abs(Fraction(t_["c"])) < Fraction(1, 10 ** 9) and any(o_ is not t_ and vsig(o_) == vsig(t_) for o_ in e["rhs"]):
+                    c_ = Fraction(t_["c"])
+                    while abs(c_) < Fraction(1, 10 ** 3):
+                        c_ *= 1000
+                    t_["c"] = str(c_)
         ivs = []
         for d in range(e["order"]):
             if iv_params and nparams and rng.random() < 0.25:
